@@ -32,7 +32,7 @@ class Inst:
         return k
 
 
-PARAM = {"VA": "VP p%s", "BA": "const BARR* %s", "LL8": "long long %s", "V": "VP p%s", "M": "MP p%s", "S": "S %s", "LL": "long long %s", "B": "bool %s",
+PARAM = {"US": "US %s", "SI": "S %s", "VA": "VP p%s", "BA": "const BARR* %s", "LL8": "long long %s", "V": "VP p%s", "M": "MP p%s", "S": "S %s", "LL": "long long %s", "B": "bool %s",
          "U32": "std::uint32_t %s", "CP": "const S* %s", "P": "S* %s", "VI": "IVP p%s",
          "V2": "VP2 p%s", "M2": "MP2 p%s", "I32": "std::int32_t %s", "I64": "std::int64_t %s"}
 LOCAL = {"VA": "V %s{p%s};", "V": "V %s{p%s};", "M": "M %s{p%s};", "VI": "IV %s{p%s};", "V2": "V2 %s{p%s};",
@@ -46,7 +46,7 @@ def wrapper_line(inst):
     loc = " ".join(LOCAL[k] % (n, n) for k, n in inst.args if k in LOCAL)
     if inst.ret == "void":
         body = "%s %s;" % (inst.pre, inst.body)
-    elif inst.ret in ("V", "M", "V2", "M2") or getattr(inst, "rettype", None):
+    elif (inst.ret in ("V", "M", "V2", "M2") or getattr(inst, "rettype", None)) and not getattr(inst, "nodecay", False):
         body = "%s return avel::decay(%s);" % (inst.pre, inst.body)
     else:
         body = "%s return %s;" % (inst.pre, inst.body)
@@ -669,7 +669,7 @@ def judge_fpclass(fn):
             return UNDECIDED, "unmodelled %s %s" % (sorted(S.flags), S.unknown[:2]), rule, None
         actual = S.ret
         k = ctx.argidx["a"]
-        ismask = inst.ret == "M"
+        ismask = inst.ret in ("M", "B")
         total = 0
         for i in range(vt.n):
             if ismask:
@@ -769,6 +769,70 @@ def fam_round(vt, cfg):
 
 FENV_WRITERS = {"fesetround", "fesetenv", "feupdateenv", "feholdexcept", "fesetexceptflag", "_controlfp",
                 "__fesetround", "fedisableexcept", "feenableexcept"}
+
+
+def judge_ub(ctx, inst, S):
+    """E4: on IR no UB-exploiting pass has touched, look for a valid input on which an
+    overflow-flagged operation feeding the result overflows, a shift amount reaches the width,
+    or a zero-undef count is applied to zero"""
+    import lanecheck
+    import runner
+    from common import HOLDS, REFUTED, UNDECIDED
+    rule = "no signed overflow / over-wide shift / zero-undef count reachable on a documented input (unoptimised IR)"
+    if S.ret is None:
+        return UNDECIDED, "no value", rule, None
+    if S.flags & {"loop", "call", "indirect-call", "asm", "alloca"}:
+        return UNDECIDED, "unmodelled %s" % sorted(S.flags & {"loop", "call", "indirect-call", "asm", "alloca"}), rule, None
+    argspecs = ctx.argspecs
+    ld = getattr(inst, "lane_dom", None)
+    if ld is not None:
+        def mkdom(bits, lb):
+            def dom(v):
+                r = 0
+                for i in range(bits // lb):
+                    r |= ld((v >> (i * lb)) & ((1 << lb) - 1)) << (i * lb)
+                return r
+            return dom
+        argspecs = [(b, lb, mkdom(b, lb) if lb else None) for (b, lb, d) in argspecs]
+    env_ok = getattr(inst, "env_ok", None)
+    nchk = 0
+    for ne, args in enumerate(lanecheck.gen_envs(argspecs, 0)):
+        if ne >= 1500:
+            break
+        if env_ok is not None:
+            ok = env_ok(args, ctx.names)
+            if ok is None:
+                break
+            if not ok:
+                continue
+        env = {"args": args}
+        memo = {}
+        for ob in S.oblig:
+            kind, cond, opn, p1, x, y, loc = ob
+            try:
+                if not T.ev(cond, env, memo):
+                    continue
+                nchk += 1
+                if kind == "overflow":
+                    T._check_overflow(opn, p1, T.ev(x, env, memo), T.ev(y, env, memo), x[1], loc)
+                elif kind == "shift":
+                    amt = T.ev(x, env, memo)
+                    if amt >= p1:
+                        raise T.Poison("%s i%d by %d at %s" % (opn, p1, amt, loc or "?"))
+                elif kind == "zero-undef":
+                    if T.ev(x, env, memo) == 0:
+                        raise T.Poison("%s(0) with is_zero_undef at %s" % (opn, loc or "?"))
+                elif kind == "abs-min":
+                    if T.ev(x, env, memo) == 1 << (p1 - 1):
+                        raise T.Poison("abs(INT_MIN) with int_min_poison at %s" % (loc or "?"))
+            except T.Poison as p:
+                wit = {"args": {}, "undefined": str(p)}
+                for i, v in enumerate(args):
+                    wit["args"][ctx.names[i] if i < len(ctx.names) else "arg%d" % i] = hex(v)
+                return REFUTED, "undefined behaviour on a valid input: %s" % p, rule, wit
+            except T.Uneval:
+                continue
+    return HOLDS, "%d UB obligation(s) (overflow-flagged arithmetic, shifts, zero-undef counts), none violated on the input lattice" % len(S.oblig), rule, None
 
 
 def judge_fenv(ctx, inst, S):
@@ -883,9 +947,111 @@ def fam_div(vt, cfg):
     return I
 
 
+# ---------------------------------------------------------------------------
+# C16 scalar overloads (reuse the lane specifications with width 1)
+
+def judge_cmp_mixed(pred_math):
+    """mixed-signedness comparison: the closed form may touch x and y only through sign tests and
+    comparisons between x, y and constants; it is then a function of (msb x, msb y, unsigned order of
+    x and y), a finite set of cases, each evaluated against the comparison of the mathematical values"""
+    from common import HOLDS, REFUTED, UNDECIDED
+
+    def j(ctx, inst, S):
+        eb = ctx.vt.eb
+        rule = "cmp_%s(%s): decided on the finite set of sign/order cases against the mathematical integers" % (
+            pred_math, "/".join(k for k, n in inst.args))
+        t = S.ret
+        if t is None or S.flags & {"loop", "call", "asm"}:
+            return UNDECIDED, "unmodelled", rule, None
+        kx, ky = ctx.argidx["x"], ctx.argidx["y"]
+        # fragment check
+        seen = set()
+        stack = [t]
+        while stack:
+            u = stack.pop()
+            if not isinstance(u, tuple) or id(u) in seen:
+                continue
+            seen.add(id(u))
+            if u[0] in ("const",):
+                continue
+            if u[0] == "arg":
+                if u[1] == eb or (u[1] == 1 and u[3] == eb - 1) or (u[1] == eb - 1 and u[3] == 0):
+                    continue
+                return UNDECIDED, "argument bits %s used outside a comparison" % T.show(u, 2, ctx.names), rule, None
+            if u[0] in ("icmp", "not", "and", "or", "xor", "select", "concat"):
+                stack.extend(x for x in u[2:] if isinstance(x, tuple))
+                continue
+            return UNDECIDED, "operator %s" % u[0], rule, None
+        sx = inst.args[0][0] == "SI"      # x signed?
+        M = (1 << eb) - 1
+        H = 1 << (eb - 1)
+        lows = [0, 1, 2, H - 2, H - 1]
+        n = 0
+        for mx in (0, 1):
+            for my in (0, 1):
+                for lx in lows:
+                    for ly in lows:
+                        x = (mx * H) | lx
+                        y = (my * H) | ly
+                        vx = x - (1 << eb) if (sx and mx) else x
+                        vy = y - (1 << eb) if ((not sx) and my) else y
+                        want = {"equal": vx == vy, "not_equal": vx != vy, "less": vx < vy, "less_equal": vx <= vy,
+                                "greater": vx > vy, "greater_equal": vx >= vy}[pred_math]
+                        args = [0, 0]
+                        args[kx], args[ky] = x, y
+                        try:
+                            got = T.ev(t, {"args": args})
+                        except T.Uneval as e:
+                            return UNDECIDED, "not evaluable: %s" % e, rule, None
+                        n += 1
+                        if got != int(want):
+                            return REFUTED, T.show(t, 4, ctx.names), rule, {"x": hex(x), "y": hex(y), "got": got,
+                                                                            "expected": int(want)}
+        return HOLDS, "%d sign/order cases; %s" % (n, T.show(t, 3, ctx.names)), rule, None
+    return j
+
+
+def fam_scalar(vt, cfg):
+    if vt.n != 1:
+        return []
+    out = []
+    src = []
+    for fam in ("bitcount", "select", "fpclass", "round"):
+        for i in FAMILIES[fam](vt, cfg):
+            src.append((fam, i))
+    for i in fam_bitwise(vt, cfg):
+        if i.op in ("rotl_s", "rotr_s"):
+            src.append(("bitwise", i))
+    for i in fam_floatarith(vt, cfg):
+        if i.op == "fsqrt":
+            src.append(("floatarith", i))
+    KM = {"V": "S", "M": "B", "VA": "S"}
+    for fam, i in src:
+        args = [(KM.get(k, k), n) for k, n in i.args]
+        ret = {"V": "S", "M": "B"}.get(i.ret, i.ret)
+        j = Inst(i.op, args, ret, i.body, i.expect, param=i.param, pre=i.pre, judge=i.judge)
+        for attr in ("env_ok", "lane_dom", "optional"):
+            if hasattr(i, attr):
+                setattr(j, attr, getattr(i, attr))
+        if getattr(i, "rettype", None):
+            j.rettype = "decltype(%s)" % i.body.replace("(a)", "(S{})")
+            j.nodecay = True
+        j.optional = True        # a scalar overload that a type does not offer is not an obligation
+        j.vector_family = fam
+        out.append(j)
+    if vt.is_int and vt.signed:
+        for nm in ("equal", "not_equal", "less", "less_equal", "greater", "greater_equal"):
+            out.append(Inst("cmp_%s_us" % nm, [("US", "x"), ("SI", "y")], "B", "avel::cmp_%s(x, y)" % nm, None,
+                            judge=judge_cmp_mixed(nm)))
+            out.append(Inst("cmp_%s_su" % nm, [("SI", "x"), ("US", "y")], "B", "avel::cmp_%s(x, y)" % nm, None,
+                            judge=judge_cmp_mixed(nm)))
+    return out
+
+
 FAMILIES = {
     "div": fam_div,
     "fpclass": fam_fpclass,
+    "scalar": fam_scalar,
     "round": fam_round,
     "convert": fam_convert,
     "memory": fam_memory,
